@@ -158,6 +158,9 @@ class Arr:
     def sym_truth(self, it):
         raise PyRaise(ValueError("The truth value of an array with more than one element is ambiguous"))
 
+    def sym_set(self, it):
+        return Opaque("set(array)")
+
     def sym_contains(self, it, x):
         """x in array: some row holds the value (an uninterpreted membership predicate of the array's content)"""
         if not is_scalar(x) or isinstance(x, Opaque):
